@@ -45,6 +45,7 @@ import (
 	"flag"
 	"fmt"
 	"go/ast"
+	"go/printer"
 	"go/token"
 	"go/types"
 	"os"
@@ -220,6 +221,8 @@ type Scanner struct {
 	root       string
 	allFields  map[string]bool
 	fieldName  map[*types.Var]string // field object of a tracked struct -> "T.f"
+	instSites  []InstSite
+	instSeen   map[string]bool
 	dynCalls   []dynCall
 	mainFn     *Fn
 	startupEnd token.Pos
@@ -654,7 +657,76 @@ func (w *walker) sameModuloDeferred(a, b Held) bool {
 	return true
 }
 
+// unstableBase: the expression denoting the instance (of a tracked struct) may denote DIFFERENT instances
+// at different evaluations: a call returning a tracked struct pointer (api.ircServer(), currentIRCServer()),
+// a tracked package-level pointer (ircServer) or a tracked pointer field (HTTP.ircServerUnlocked,
+// FSM.ircstore), all of which FSM.Restore swaps.  "" = stable (rooted in a local variable, parameter or
+// receiver).  Locks are identified by (type, field): a lock taken on one evaluation and an access or
+// unlock on another evaluation look consistent to the discipline but may concern two instances.
+func (w *walker) unstableBase(e ast.Expr) (string, string) {
+	switch x := stripParens(e).(type) {
+	case *ast.Ident:
+		if g, ok := w.globalOf(x); ok {
+			return "the package-level variable " + g, g
+		}
+	case *ast.UnaryExpr:
+		return w.unstableBase(x.X)
+	case *ast.StarExpr:
+		return w.unstableBase(x.X)
+	case *ast.IndexExpr:
+		return w.unstableBase(x.X)
+	case *ast.TypeAssertExpr:
+		return w.unstableBase(x.X)
+	case *ast.SelectorExpr:
+		if selinfo, ok := w.info.Selections[x]; ok && selinfo.Kind() == types.FieldVal {
+			if name, fv, ok := w.fieldOf(x); ok {
+				if _, isPtr := fv.Type().Underlying().(*types.Pointer); isPtr {
+					if _, tracked := trackedStructName(fv.Type()); tracked {
+						return "the instance pointer field " + name, name
+					}
+				}
+			}
+			return w.unstableBase(x.X)
+		}
+	case *ast.CallExpr:
+		if tv, ok := w.info.Types[x]; ok {
+			if _, tracked := trackedStructName(tv.Type); tracked {
+				var b strings.Builder
+				printer.Fprint(&b, w.s.fset, x.Fun)
+				return "the result of a call to " + b.String() + "()", ""
+			}
+		}
+	}
+	return "", ""
+}
+
+func (s *Scanner) instSite(fn *Fn, pos token.Pos, what, base string, local Held) {
+	key := fn.ID + "|" + what
+	if s.instSeen[key] {
+		return
+	}
+	s.instSeen[key] = true
+	s.instSites = append(s.instSites, InstSite{Fn: fn.ID, What: what, Pos: s.pos(pos), Base: base, local: local.clone(), fn: fn})
+}
+
+// InstSite: a mutex operation, or an access made under a locally held lock, on an instance expression
+// that is re-evaluated (instance consistency, see unstableBase)
+type InstSite struct {
+	Fn    string      `json:"fn"`
+	What  string      `json:"what"`
+	Pos   string      `json:"pos"`
+	Base  string      `json:"base_field"` // tracked variable/field the instance is read from; "" for a call result
+	Held  [][2]string `json:"held"`       // held at entry + locally held at the site
+	local Held
+	fn    *Fn
+}
+
 func (w *walker) record(field string, write bool, pos token.Pos, base ast.Expr) {
+	if base != nil && len(w.held) > 0 {
+		if why, bf := w.unstableBase(base); why != "" {
+			w.s.instSite(w.fn, pos, "access to "+field+" under a locally held lock through "+why, bf, w.held)
+		}
+	}
 	a := Access{Field: field, Write: write, Local: w.held.clone(), Pos: pos, Startup: w.isStartup(pos)}
 	if id := rootIdent(base); id != nil {
 		if v, ok := w.info.Uses[id].(*types.Var); ok {
@@ -1194,8 +1266,10 @@ func (w *walker) lockOp(sel *ast.SelectorExpr, method string, deferred bool, c *
 	}
 	// evaluate the path to the mutex (reads of pointer-typed mutex fields etc.)
 	w.expr(sel.X)
-	if bsel, ok := stripParens(sel.X).(*ast.SelectorExpr); ok && containsCall(bsel.X) {
-		w.s.note(c.Pos(), "lock "+name+" taken on the result of a call; instance identity is not tracked (lock identified by type and field only)")
+	if bsel, ok := stripParens(sel.X).(*ast.SelectorExpr); ok {
+		if why, base := w.unstableBase(bsel.X); why != "" {
+			w.s.instSite(w.fn, c.Pos(), method+" of "+name+" on "+why, base, w.held)
+		}
 	}
 	switch method {
 	case "Lock", "RLock":
@@ -1709,7 +1783,7 @@ func main() {
 		os.Exit(2)
 	}
 	s := &Scanner{byObj: map[*types.Func]*Fn{}, byLit: map[*ast.FuncLit]*Fn{}, fieldFlow: map[*types.Var][]*Fn{},
-		noteSeen: map[string]bool{}, root: abs, allFields: map[string]bool{}, fieldName: map[*types.Var]string{}}
+		noteSeen: map[string]bool{}, root: abs, allFields: map[string]bool{}, fieldName: map[*types.Var]string{}, instSeen: map[string]bool{}}
 	for _, p := range pkgs {
 		if p.PkgPath == modPath || strings.HasPrefix(p.PkgPath, modPath+"/internal/") {
 			s.pkgs = append(s.pkgs, p)
@@ -1930,6 +2004,24 @@ func (s *Scanner) globalAliases() []GlobalAlias {
 			return out[i].Var < out[j].Var
 		}
 		return out[i].Fn < out[j].Fn
+	})
+	return out
+}
+
+func (s *Scanner) instSitesSorted() []InstSite {
+	var out []InstSite
+	for _, x := range s.instSites {
+		if x.fn.EntryTop {
+			continue // unreachable function
+		}
+		x.Held = union(x.fn.Entry, x.local).list()
+		out = append(out, x)
+	}
+	sort.Slice(out, func(i, j int) bool {
+		if out[i].Fn != out[j].Fn {
+			return out[i].Fn < out[j].Fn
+		}
+		return out[i].Pos < out[j].Pos
 	})
 	return out
 }
@@ -2209,7 +2301,7 @@ func (s *Scanner) output(outJSON, outV string) {
 	if outJSON != "" {
 		out := map[string]interface{}{
 			"repo": s.root, "entries": list, "exempt": exempt, "unrecognised": s.notes, "functions": fninfo,
-			"declared_fields": fields, "n_functions": len(s.fns), "global_alias_sites": s.globalAliases(),
+			"declared_fields": fields, "n_functions": len(s.fns), "global_alias_sites": s.globalAliases(), "instance_mismatch_sites": s.instSitesSorted(),
 		}
 		b, _ := json.MarshalIndent(out, "", " ")
 		if err := os.WriteFile(outJSON, b, 0644); err != nil {
@@ -2258,6 +2350,24 @@ func (s *Scanner) output(outJSON, outV string) {
 				sep = ""
 			}
 			fmt.Fprintf(&sb, "  (%s, %s)%s\n", coqStr(g.Var), coqStr(g.Fn), sep)
+		}
+		sb.WriteString("].\n\n(* functions with a mutex operation / locked access on a re-evaluated instance expression *)\n")
+		sb.WriteString("Definition gen_instance_mismatch_sites : list inst_site := [\n")
+		isites := s.instSitesSorted()
+		for i, x := range isites {
+			var hs []string
+			for _, h := range x.Held {
+				m := "Sh"
+				if h[1] == "X" {
+					m = "Ex"
+				}
+				hs = append(hs, "("+coqStr(h[0])+", "+m+")")
+			}
+			sep := ";"
+			if i == len(isites)-1 {
+				sep = ""
+			}
+			fmt.Fprintf(&sb, "  mkInst %s %s %s [%s]%s\n", coqStr(x.Fn), coqStr(x.What), coqStr(x.Base), strings.Join(hs, "; "), sep)
 		}
 		sb.WriteString("].\n")
 		if err := os.WriteFile(outV, []byte(sb.String()), 0644); err != nil {
